@@ -73,7 +73,8 @@ def cases(draw):
     mode = draw(st.sampled_from(["classes", "sm"]))
     if mode == "classes":
         odd = draw(st.integers(0, 2)) == 0
-        g = draw(gg.general(inst_props=(RDF_TYPE, RDF_TYPE, "http://ex.org/isA", gg.INST_PROPS[2]), class_typing=odd, iri_like_literals=odd))
+        g = draw(gg.general(inst_props=(RDF_TYPE, RDF_TYPE, "http://ex.org/isA", gg.INST_PROPS[2]), class_typing=odd, iri_like_literals=odd,
+                            quirks=draw(gg.quirk_set(one_in=4))))
         cfg = draw(gg.switches())
         cfg["instances_report_mode"] = "mixed"
         target = draw(common.target_spec(g, p_all=0.25))
@@ -82,6 +83,10 @@ def cases(draw):
             case["spelling"] = draw(st.lists(st.integers(0, 2), min_size=len(target["classes"]), max_size=len(target["classes"])))
             case["via_file"] = draw(st.booleans())
         case["ip_prefixed"] = draw(st.booleans())
+        if draw(st.integers(0, 3)) == 0:
+            # the selection is read from the full graph, also when the namespace of the instantiation property is ignored
+            case["ignore"] = draw(st.lists(st.sampled_from(IGNORABLE), min_size=1, max_size=2, unique=True))
+        case["chan"] = draw(st.sampled_from(["raw", "raw", "raw", "file", "tsv", "turtle_iter", "rdflib"]))
         return case
     g = draw(gg.general(bnodes=False, inst_props=(RDF_TYPE, RDF_TYPE, "http://ex.org/isA"), colon_locals=draw(st.integers(0, 2)) == 0))
     cfg = draw(gg.switches())
@@ -95,6 +100,9 @@ def cases(draw):
     return {"mode": mode, "g": g, "cfg": cfg, "items": items, "syntax": draw(st.sampled_from(["fsm", "fsm", "json"])),
             "via_file": draw(st.booleans()), "with_all_classes": draw(st.integers(0, 3)) == 0,
             "thr": draw(st.sampled_from([0, 0, 0.5, 1 / 3, 1]))}
+
+
+IGNORABLE = ["http://www.w3.org/1999/02/22-rdf-syntax-ns#", "http://ex.org/", "http://ex.org/ns/", "http://www.wikidata.org/prop/direct/"]
 
 
 def strategy(tier):
@@ -136,6 +144,9 @@ def run_and_compare(kw, triples, sel, label_of, case, labels, nt, extra="", own=
             lo[k] = v
     if len(set(lo.values())) != len(lo):
         return discard("label-collision")
+    if case.get("ignore"):
+        from .c16 import direct_child
+        triples = [t for t in triples if not direct_child(t[1], case["ignore"])]
     M = refmodel.Model(triples, sel, lo, inst_prop, cfg.get("inverse_paths", False))
     finds = oracle.compare(cdoc, M, lo, thr, cfg, twin=twin)
     if own is not None:
@@ -188,6 +199,14 @@ def check(case, own=None):
                     labels.add("rdf-type-as-ordinary-property")
             if nt:
                 labels.add("nontrivial")
+            if case.get("ignore"):
+                kw["namespaces_to_ignore"] = list(case["ignore"])
+                labels.add("namespaces-ignored")
+                if any(inst_prop.startswith(n) for n in case["ignore"]):
+                    labels.add("instantiation-namespace-ignored")
+            if case.get("chan", "raw") != "raw":
+                kw = common.deliver(kw, triples, case["chan"], tmp)
+                labels.add("chan:" + case["chan"])
             return run_and_compare(kw, triples, sel, label_of, case, labels, nt, own=own)
         # ---- shape map
         sel = {}
